@@ -760,11 +760,16 @@ func (tt *TermTable) Extract(hi, lo int, a *Term) *Term {
 		if lo >= iw {
 			return tt.BV(w, 0)
 		}
+		return tt.ZExt(tt.Extract(iw-1, lo, a.args[0]), w)
 	case OSExt:
 		iw := a.args[0].sort.W
 		if hi < iw {
 			return tt.Extract(hi, lo, a.args[0])
 		}
+		if lo < iw {
+			return tt.SExt(tt.Extract(iw-1, lo, a.args[0]), w)
+		}
+		return tt.SExt(tt.Extract(iw-1, iw-1, a.args[0]), w)
 	case OConcat:
 		lw := a.args[1].sort.W
 		if hi < lw {
@@ -781,6 +786,13 @@ func (tt *TermTable) Extract(hi, lo int, a *Term) *Term {
 			}
 			if lo+k >= a.sort.W {
 				return tt.BV(w, 0)
+			}
+		}
+	case OAShr:
+		if c := a.args[1]; c.op == OConst && c.ConstBig().IsInt64() {
+			k := int(c.ConstBig().Int64())
+			if hi+k < a.sort.W {
+				return tt.Extract(hi+k, lo+k, a.args[0])
 			}
 		}
 	case OShl:
@@ -868,6 +880,14 @@ func (tt *TermTable) Eq(a, b *Term) *Term {
 	if bothConst(a, b) {
 		return tt.False // hash-consed: different consts
 	}
+	if a.sort.K == SInt && a.op == OBV2Nat && b.op == OBV2Nat {
+		wa, wb := a.args[0].sort.W, b.args[0].sort.W
+		w := wa
+		if wb > w {
+			w = wb
+		}
+		return tt.Eq(tt.ZExt(a.args[0], w), tt.ZExt(b.args[0], w))
+	}
 	if a.sort.K == SBool {
 		if a.op == OConst {
 			if a.ConstBool() {
@@ -912,10 +932,82 @@ func (tt *TermTable) Eq(a, b *Term) *Term {
 		}
 		return tt.Eq(a.args[0], tt.BVBig(iw, b.ConstBig()))
 	}
+	// equality involving a concatenation decomposes into equalities of aligned slices
+	// (identical slices fold away, so only the parts that really differ reach the solver)
+	if a.op == OConcat || b.op == OConcat {
+		if r := tt.eqConcat(a, b); r != nil {
+			return r
+		}
+	}
 	if a.id > b.id && b.op != OConst {
 		a, b = b, a
 	}
 	return tt.bin(OEq, BoolSort, a, b)
+}
+
+func flattenConcat(t *Term, out *[]*Term) {
+	if t.op == OConcat {
+		flattenConcat(t.args[0], out)
+		flattenConcat(t.args[1], out)
+		return
+	}
+	*out = append(*out, t)
+}
+
+func (tt *TermTable) eqConcat(a, b *Term) *Term {
+	var pa, pb []*Term
+	flattenConcat(a, &pa)
+	flattenConcat(b, &pb)
+	if len(pa) == 1 && len(pb) == 1 {
+		return nil
+	}
+	r := tt.True
+	ia, ib := len(pa)-1, len(pb)-1
+	// remaining (not yet consumed) low parts of the current pieces
+	ca, cb := pa[ia], pb[ib]
+	for {
+		wa, wb := ca.sort.W, cb.sort.W
+		n := wa
+		if wb < n {
+			n = wb
+		}
+		var e *Term
+		la, lb := tt.Extract(n-1, 0, ca), tt.Extract(n-1, 0, cb)
+		if la == lb {
+			e = tt.True
+		} else if la.op == OConst && lb.op == OConst {
+			return tt.False
+		} else if la.op == OConcat || lb.op == OConcat {
+			// extraction re-created a concat (should not happen for leaves); fall back
+			e = tt.bin(OEq, BoolSort, la, lb)
+		} else {
+			e = tt.Eq(la, lb)
+		}
+		if e == tt.False {
+			return tt.False
+		}
+		r = tt.And(r, e)
+		if wa > n {
+			ca = tt.Extract(wa-1, n, ca)
+		} else {
+			ia--
+			if ia >= 0 {
+				ca = pa[ia]
+			}
+		}
+		if wb > n {
+			cb = tt.Extract(wb-1, n, cb)
+		} else {
+			ib--
+			if ib >= 0 {
+				cb = pb[ib]
+			}
+		}
+		if ia < 0 || ib < 0 {
+			break
+		}
+	}
+	return r
 }
 
 func (tt *TermTable) Cmp(op Op, a, b *Term) *Term {
@@ -1323,6 +1415,37 @@ func (tt *TermTable) ICmp(op Op, a, b *Term) *Term {
 	if a == b {
 		return tt.Bool(op == OILe)
 	}
+	// comparisons of bv2nat(x) with a constant stay in the bit-vector theory
+	if a.op == OBV2Nat && b.op == OConst {
+		x := a.args[0]
+		w := x.sort.W
+		if b.big.Sign() < 0 {
+			return tt.False
+		}
+		if b.big.BitLen() > w {
+			return tt.True
+		}
+		c := tt.BVBig(w, b.big)
+		if op == OILe {
+			return tt.Cmp(OUle, x, c)
+		}
+		return tt.Cmp(OUlt, x, c)
+	}
+	if b.op == OBV2Nat && a.op == OConst {
+		x := b.args[0]
+		w := x.sort.W
+		if a.big.Sign() < 0 {
+			return tt.True
+		}
+		if a.big.BitLen() > w {
+			return tt.False
+		}
+		c := tt.BVBig(w, a.big)
+		if op == OILe {
+			return tt.Cmp(OUle, c, x)
+		}
+		return tt.Cmp(OUlt, c, x)
+	}
 	return tt.bin(op, BoolSort, a, b)
 }
 
@@ -1354,6 +1477,9 @@ func (tt *TermTable) Int2BV(w int, a *Term) *Term {
 	}
 	if a.op == OBV2Nat && a.args[0].sort.W < w {
 		return tt.ZExt(a.args[0], w)
+	}
+	if a.op == OBV2Nat && a.args[0].sort.W > w {
+		return tt.Extract(w-1, 0, a.args[0])
 	}
 	return tt.mk(&Term{op: OInt2BV, sort: BVSort(w), args: []*Term{a}, p1: w})
 }
